@@ -70,6 +70,13 @@ def subU8 (p : Profile) (a b : Nat) : Out Nat :=
     | .debug => .panic
     | .release => .ok (a + 256 - b)
 
+/-- `a + b` on `u64`. -/
+def addU64 (p : Profile) (a b : Nat) : Out Nat :=
+  if a + b < 18446744073709551616 then .ok (a + b)
+  else match p with
+    | .debug => .panic
+    | .release => .ok ((a + b) % 18446744073709551616)
+
 /-- `a - b` on `u64` (operands < 2^64). -/
 def subU64 (p : Profile) (a b : Nat) : Out Nat :=
   if b ≤ a then .ok (a - b)
